@@ -155,6 +155,7 @@ char* strput_int (char *x, char *limit, int num) {
 static int give_uid_to_object (object_t * ob) {
   svalue_t *ret;
   char *creator_name = NULL;
+  error_context_t econ;
 
   /* before master object is loaded */
   if (get_machine_state() < MS_MUDLIB_LIMBO)
@@ -165,8 +166,28 @@ static int give_uid_to_object (object_t * ob) {
     }
 
   /* ask master object who the creator of this object is */
+  if (!save_context (&econ))
+    {
+      ob->uid = add_uid ("NONAME");
+      destruct_object (ob);
+      error ("*Can't catch too deep recursion error.");
+    }
+  if (setjmp (econ.context))
+    {
+      /*
+       * Error in master::creator_file(): nobody has decided who owns the
+       * object, so it must not stay in the object table without a uid.
+       */
+      restore_context (&econ);
+      pop_context (&econ);
+      ob->uid = add_uid ("NONAME");
+      ob->euid = NULL;
+      destruct_object (ob);
+      error ("*Error in master::%s() when creating '/%s'.", APPLY_CREATOR_FILE, ob->name);
+    }
   push_malloced_string (add_slash (ob->name));
   ret = apply_master_ob (APPLY_CREATOR_FILE, 1);
+  pop_context (&econ);
 
   if (ret == (svalue_t *) - 1)
     {
@@ -682,12 +703,13 @@ object_t *clone_object (const char *str1, int num_arg) {
   reference_prog (ob->prog, "clone_object");
   DEBUG_CHECK (!current_object, "clone_object() from no current_object !\n");
 
-  init_object (new_ob);
-
   new_ob->next_all = obj_list;
   obj_list = new_ob;
   opt_info (1, "cloning object /%s", obj_list->name);
   enter_object_hash (new_ob);	/* Add name to fast object lookup table */
+
+  /* like load_object(): enter the object first, so that it can be destructed if the master refuses it */
+  init_object (new_ob);
   call_create (new_ob, num_arg);
   command_giver = save_command_giver;
   /* Never know what can happen ! :-( */
